@@ -106,6 +106,8 @@ FIXED = [
     ("C07", "60b29da", "`try { null.x } catch (e) { e instanceof Error }` was false (also for ReferenceError, RangeError ...): the derived error prototypes had no parent; errors had no toString"),
     ("C07", "a3da203", "`throw new RangeError('out of range')` reached Python as JSError('Error: out of range'): the uncaught object's name was dropped"),
     ("C15", "cceea8f", "a function with 300 variables was refused with `operand 286 of STORE_LOCAL exceeds 255` under PYTHONHASHSEED=1 and `operand 265 ...` under 2: slot numbers followed set iteration order and were printed in the message"),
+    ("C08", "cd3a517", "`[1,2,3]['01']`, `['+1']`, `[' 1 ']`, `['1_0']`, `['\u0661']` all read element 1, `a['01']=9` could not be read back and hasOwnProperty('01') disagreed with `in`: key-to-index conversion with int() without comparing the spelling"),
+    ("C04", "0f614d1", "`1\u00b2` let a Python ValueError escape eval, `\u0663 + 1` was 4, `/a{\u0663}/` a counted quantifier, `parseFloat('\u0663.5')` 3.5: digits selected with str.isdigit() and parsed by int()/float()"),
 ]
 
 
